@@ -73,6 +73,33 @@ Theorem C14_told_own_result :
 Proof. exact told_own_result. Qed.
 Print Assumptions C14_told_own_result.
 
+(* cancellation of a caller that WAITS in the read guard (an aborted reset / restore request) is part of the alphabet
+   ([ReadCancel]), so C14_reads_exclusive above covers it; the step itself only removes one waiter: the read in flight keeps
+   `_reading`, the write path is untouched *)
+Theorem C14_cancelled_waiter_keeps_holder :
+  forall cap s c s', step cap s (ReadCancel c) = Some s' ->
+    reading s' = reading s /\ reads_in_flight s' = reads_in_flight s /\ read_waiters s = S (read_waiters s')
+    /\ write_q s' = write_q s /\ wl s' = wl s.
+Proof. exact cancel_keeps_holder. Qed.
+Print Assumptions C14_cancelled_waiter_keeps_holder.
+
+(* the submitter's own level (what transform_and_write_value gives back to the API function, the eval loop or the sequence
+   step, and what patch_port_value answers), judged on the prefix before the answer: told QueueFull <=> the ticket was
+   dropped; told anything else (in particular OK) => the ticket was dequeued by the write loop and that is the result of its
+   own driver call; an API 204/202 => not dropped, started at the driver, driver returned normally *)
+Theorem C14_submitter_level :
+  forall cap tr s pre e post, run cap init tr = Some s -> tr = pre ++ e :: post ->
+    match e with
+    | Told t r =>
+        (r = TQueueFull <-> In t (failed pre)) /\
+        (r <> TQueueFull -> lookup t (driver_results pre) = Some r /\ In t (map snd (took pre)))
+    | ApiTold t true => ~ In t (failed pre) /\ lookup t (driver_results pre) = Some TOk /\ In t (map snd (took pre))
+    | ApiTold t false => In t (failed pre) \/ lookup t (driver_results pre) = Some TExc
+    | _ => True
+    end.
+Proof. exact submitter_level. Qed.
+Print Assumptions C14_submitter_level.
+
 (* the executable specification that is run against the implementation holds of every accepted trace *)
 Theorem C14_spec_holds_of_accepted :
   forall cap tr s, run cap init tr = Some s -> spec_code cap false tr = 0.
@@ -86,10 +113,13 @@ Example C14_nonvacuous :
              WriteSubmit 10 0 None; WriteTake 10 0; WriteStart 10;
              WriteSubmit 11 1 None; WriteSubmit 12 2 None; WriteSubmit 13 3 (Some 1%nat); Deliver 1 TQueueFull;
              ReadEnd SrcPass OVal; ReadStart SrcLoad;
-             WriteEnd WOk; Deliver 0 TOk; LoopResume; WriteTake 12 2; WriteStart 12; Snap true true 1]%Z in
+             WriteEnd WOk; Deliver 0 TOk; Told 0 TOk; ApiTold 0 true; Told 1 TQueueFull; ApiTold 1 false;
+             ReadRequest SrcLoad; ReadCancel SrcLoad;
+             LoopResume; WriteTake 12 2; WriteStart 12; Snap true true 1]%Z in
   exists s, run 2 init tr = Some s
     /\ failed tr = [1] /\ driver_writes tr = [10; 12]%Z /\ pending_values s = [13]%Z
     /\ map fst (surviving tr) = [10; 12; 13]%Z /\ reads_in_flight s = 1 /\ writes_in_flight s = 1
     /\ run 2 init (tr ++ [ReadStart SrcPass]) = None /\ run 2 init (tr ++ [DirectStart 5%Z]) = None
-    /\ run 2 init (tr ++ [WriteTake 13 3]) = None.
+    /\ run 2 init (tr ++ [WriteTake 13 3]) = None /\ run 2 init (tr ++ [Told 2 TOk]) = None
+    /\ run 2 init (tr ++ [Told 1 TOk]) = None /\ run 2 init (tr ++ [ReadCancel SrcLoad]) = None.
 Proof. eexists. vm_compute. repeat split. Qed.
